@@ -223,8 +223,8 @@ abbrev Row := Str × Attrs
 def dupAttr (rows : List Row) : Bool :=
   rows.any fun r => rows.any fun r' => r.1 = r'.1 && r.2 ≠ r'.2
 
-/-- `dataframe_to_tree` / `polars_to_tree`. The root is created with the DEFAULT separator and
-    `root.sep = sep` is only set after the loop, so inside the loop the tree separator is `/`. -/
+/-- `dataframe_to_tree` / `polars_to_tree`. `root.sep = sep` is set right after the root is created (repair D11;
+    before it, the loop ran under the default separator `/`), so the tree separator inside the loop is `sep`. -/
 def rowsToTree (sep : Str) (dupOk : Bool) (rows : List Row) : Except Err Tree :=
   let rows := rows.map fun r => (strip sep r.1, r.2)
   match rows with
@@ -238,7 +238,7 @@ def rowsToTree (sep : Str) (dupOk : Bool) (rows : List Row) : Except Err Tree :=
         | none => []
       if rootName = [] then .error .tree
       else
-        match addMany "/".toList sep dupOk (rows.map fun r => (r.1, filterRow r.2))
+        match addMany sep sep dupOk (rows.map fun r => (r.1, filterRow r.2))
             (.node 0 rootName rootAttrs []) 1 with
         | .error e => .error e
         | .ok (t, _) => .ok t
